@@ -93,12 +93,20 @@ def draw_request(rng, mesh, thick, fixed=None):
         if req["dx"] is None:
             req["dx"] = float(rng.uniform(0.3, 1.2))
             req["window_mode"] = "ratio"
-        dzm = str(rng.choice(["pixel", "ratio", "ratio", "domain"]))
+        dzm = str(rng.choice(["pixel", "ratio", "ratio", "domain", "deep"]))
+        if dzm == "deep":
+            # a deep column seen through a coarse window: many more depth samples than pixels across
+            req["resolution"] = int(rng.integers(1, 7)) if rng.random() < 0.6 else \
+                {"x": int(rng.integers(1, 7)), "y": int(rng.integers(1, 7))}
         npx = req["resolution"] if isinstance(req["resolution"], int) else req["resolution"].get("x", 256)
         if dzm == "pixel":
             req["dz"] = req["dx"] / npx * float(rng.uniform(1.0, 3.0))
         elif dzm == "ratio":
             req["dz"] = typical * 2.0 ** float(rng.uniform(-5, 3))
+        elif dzm == "deep":
+            npy_ = req["resolution"] if isinstance(req["resolution"], int) else req["resolution"].get("y", 256)
+            dyy = req["dy"] if req.get("dy") is not None else req["dx"]
+            req["dz"] = 0.5 * (req["dx"] / npx + dyy / npy_) * float(rng.uniform(3.0, 60.0)) * max(npx, npy_)
         else:
             req["dz"] = float(rng.uniform(0.5, 1.5))
         if "dz_ratio_exp" in fixed:
@@ -108,7 +116,8 @@ def draw_request(rng, mesh, thick, fixed=None):
         px = 0.5 * (req["dx"] / npx + (req["dy"] if req.get("dy") is not None else req["dx"]) / npy)
         if req["dz"] < px:
             req["dz"] = px * 1.01
-        if req["dz"] / px > 40:
+        # (the number of samples, not the depth of the column, is what is kept small)
+        if req["dz"] / px > max(40, min(400, 30000 // max(1, npx * npy))):
             if isinstance(req["resolution"], dict):
                 req["resolution"]["z"] = int(rng.integers(2, 30))
             else:
